@@ -318,18 +318,37 @@ func checkC03(c *Ctx) {
 		bad = append(bad, fmt.Sprintf("%d assignments of the table address", len(vas)))
 	}
 	_ = m3Decided
-	for _, st := range vas {
-		if ir.FieldID(ir.StripConv(st.Val)) != acPkg+".PECOFFBinary.length" {
+	// the address that is stored, wherever the choice between "keep" and "end of
+	// file" is made (in AppendSignature or in a helper that returns the address):
+	// the parsed length only where no table exists, the old address otherwise
+	var placed func(v ssa.Value, fr *frame, gfr *frame, blk *ssa.BasicBlock, depth int)
+	placed = func(v ssa.Value, fr *frame, gfr *frame, blk *ssa.BasicBlock, depth int) {
+		r := av.resolveConv(v, fr)
+		id := ir.FieldID(ir.StripConv(r.v))
+		if ph, isPhi := r.v.(*ssa.Phi); isPhi && depth < 4 {
+			for k, e := range ph.Edges {
+				placed(e, r.fr, r.fr, ph.Block().Preds[k], depth+1)
+			}
+			return
+		}
+		if id == vaField && depth > 0 {
+			return // the address as it was
+		}
+		if id != acPkg+".PECOFFBinary.length" {
 			bad = append(bad, "a new table is not placed at the parsed length of the file")
 		}
 		// only on the branch where no table exists: not reachable through VirtualAddress != 0 && Size != 0
+		gf := gfr.fn
 		cut := map[ir.Edge]bool{}
-		for _, ce := range ir.CondEdges(fn) {
+		for _, ce := range ir.CondEdges(gf) {
 			cmp, ok := ce.Cond.(*ssa.BinOp)
 			if !ok {
 				continue
 			}
 			id := ir.FieldID(ir.StripConv(cmp.X))
+			if gfr != av.root {
+				id = ir.FieldID(ir.StripConv(av.resolveConv(cmp.X, gfr).v))
+			}
 			if k, isK := ir.ConstInt(cmp.Y); isK && k == 0 && (id == vaField || id == sizeField) {
 				op := cmp.Op
 				if !ce.Truth {
@@ -342,9 +361,12 @@ func checkC03(c *Ctx) {
 		}
 		if len(cut) == 0 {
 			bad = append(bad, "the table address is assigned without testing whether a table already exists")
-		} else if seen, _ := ir.Reach(fn, fn.Blocks[0], cut); seen[st.Block().Index] {
+		} else if seen, _ := ir.Reach(gf, gf.Blocks[0], cut); seen[blk.Index] {
 			bad = append(bad, "the table address is overwritten although the image already has a certificate table")
 		}
+	}
+	for _, st := range vas {
+		placed(st.Val, av.root, av.root, st.Block(), 0)
 	}
 	// p.length in Parse is the padded file size
 	var pv *deepView
@@ -357,6 +379,12 @@ func checkC03(c *Ctx) {
 			var hasRest, hasPad bool
 			for sym := range a.T {
 				if strings.HasPrefix(sym, "len(") {
+					// the length of the padding bytes themselves (kept in a field / returned by
+					// a helper): the pad, judged by value per residue modulo 8 of the padded quantity
+					if c.lenOfPadding(pv, a.Sym[sym]) {
+						hasPad = true
+						continue
+					}
 					hasRest = true
 				}
 				if isExtractOfID(a.Sym[sym], acPkg+".PaddingBytes", 1) {
@@ -509,6 +537,39 @@ func checkC03(c *Ctx) {
 	c.R.Floor("M2.conserve", 2)
 }
 
+// lenOfPadding: v is len(x) where x, followed through locally built struct
+// fields and helper results of the view, is the byte slice a library padding
+// helper returns, and the length of that slice is the distance from the
+// helper's first argument to the next multiple of 8 for every residue.
+func (c *Ctx) lenOfPadding(d *deepView, v ssa.Value) bool {
+	lc, ok := v.(*ssa.Call)
+	if !ok || ir.CallID(lc) != "builtin.len" {
+		return false
+	}
+	old := d.throughFields
+	d.throughFields = true
+	defer func() { d.throughFields = old }()
+	for _, di := range d.order {
+		if di.i != ssa.Instruction(lc) {
+			continue
+		}
+		r := d.resolve(lc.Call.Args[0], di.fr)
+		ex, isEx := r.v.(*ssa.Extract)
+		if !isEx {
+			continue
+		}
+		call, isCall := ex.Tuple.(*ssa.Call)
+		if !isCall || !d.stopAt[ir.CallID(call)] || len(call.Call.Args) == 0 {
+			continue
+		}
+		n := ir.StripConv(call.Call.Args[0])
+		if vals, okV := c.lenFunction(ex, func(x ssa.Value) bool { return x == n }); okV && vals == [8]int64{0, 7, 6, 5, 4, 3, 2, 1} {
+			return true
+		}
+	}
+	return false
+}
+
 func loadAddr(v ssa.Value) ssa.Value {
 	if ld, ok := v.(*ssa.UnOp); ok && ld.Op == token.MUL {
 		return ld.X
@@ -554,6 +615,20 @@ func (c *Ctx) ruleOrderSignOnly() {
 		}
 	})
 	ok, det := false, "Sign does not call SignAuthenticode over the image's hash content"
+	if sa == nil && len(fn.Params) > 0 {
+		// the signing step moved into a helper: followed along the frames of Sign,
+		// the hash content has to be that of Sign's own receiver
+		dv := c.deepViewOf(fn, 3)
+		if calls := dv.callsTo(acPkg + ".SignAuthenticode"); len(calls) == 1 {
+			if call, isCall := calls[0].i.(*ssa.Call); isCall && len(call.Call.Args) == 4 {
+				sl := dv.sliceDeep(call.Call.Args[2], calls[0].fr)
+				ok = ir.HasField(sl, acPkg+".PECOFFBinary.hashContent") && sl[fn.Params[0]]
+				if k, isK := ir.ConstInt(dv.resolve(call.Call.Args[3], calls[0].fr).v); !isK || func() bool { w, _ := c.constInt("crypto", "SHA256"); return k != w }() {
+					ok, det = false, "the image is not signed with SHA-256"
+				}
+			}
+		}
+	}
 	if sa != nil {
 		sl := c.Slicer().Slice(sa.Call.Args[2])
 		if ir.HasField(sl, acPkg+".PECOFFBinary.hashContent") {
